@@ -296,8 +296,48 @@ TEMPLATES = {
         tag(b"p", [buf(I(b"acc")), text(b"/"), buf(I(b"i")), buf(fcall(b"meet"))]),
         tag(b"pre", [raw(call(I(b"JSON"), b"stringify", I(b"summary")))]),
     ],
+    # ---- templates that WRITE INTO THEIR DATA: push to / sort / assign into lists and objects found in the page data
+    # (directly, behind members of records, inside lists).  In the 'shared' storms those are objects of the
+    # engine's own model (results of pugjs.Convert) that the caller hands to every render; a render must see its
+    # own writes only.
+    # a record `page` (a map, a struct, a pointer to either) with a list `tags` and an object `attrs`
+    "own/page": [
+        code(('expr', call(('dot', I(b"page"), b"tags"), b"push", I(b"name")))),
+        code(('expr', call(('dot', I(b"page"), b"tags"), b"push", I(b"user")))),
+        tag(b"p", [buf(call(('dot', I(b"page"), b"tags"), b"join", S(b",")))]),
+        code(assign(('dot', ('dot', I(b"page"), b"attrs"), b"seen"), I(b"name"))),
+        code(assign(('dot', ('dot', I(b"page"), b"attrs"), b"by"), ('bin', '+', ('dot', ('dot', I(b"page"), b"attrs"), b"by"), I(b"user")))),
+        tag(b"pre", [buf(call(I(b"JSON"), b"stringify", ('dot', I(b"page"), b"attrs")))]),
+        code(('expr', call(('dot', I(b"page"), b"tags"), b"sort"))),
+        tag(b"p", [buf(call(('dot', I(b"page"), b"tags"), b"join", S(b"|"))), text(b" #"),
+                   buf(('dot', ('dot', I(b"page"), b"tags"), b"length"))]),
+        tag(b"b", [buf(('dot', I(b"page"), b"title"))]),
+    ],
+    # a list of records, each with its own list that the loop pushes to
+    "own/list": [
+        tag(b"ul", [('each', b"it", b"i", I(b"items"), [
+            code(('expr', call(('dot', I(b"it"), b"tags"), b"push", I(b"user")))),
+            code(assign(('dot', I(b"it"), b"label"), ('bin', '+', ('dot', I(b"it"), b"label"), S(b"*")))),
+            tag(b"li", [buf(I(b"i")), text(b":"), buf(('dot', I(b"it"), b"label")), text(b":"),
+                        buf(call(('dot', I(b"it"), b"tags"), b"join", S(b",")))]),
+        ])]),
+        tag(b"p", [buf(('dot', I(b"items"), b"length")), text(b" for "), buf(I(b"user"))]),
+    ],
+    # lists and objects that are members of the page data itself
+    "own/direct": [
+        code(('expr', call(I(b"tags"), b"push", I(b"name")))),
+        code(assign(('dot', I(b"conf"), b"last"), I(b"name"))),
+        code(('expr', call(('dot', I(b"extra"), b"a"), b"push", I(b"name")))),
+        code(('expr', call(('dot', I(b"extra"), b"a"), b"push", S(b"z")))),
+        tag(b"p", [buf(call(I(b"tags"), b"join", S(b",")))]),
+        tag(b"pre", [buf(call(I(b"JSON"), b"stringify", I(b"conf")))]),
+        tag(b"p", [buf(call(('dot', I(b"extra"), b"a"), b"join", S(b","))), text(b" #"),
+                   buf(('dot', ('dot', I(b"extra"), b"a"), b"length"))]),
+        ('each', b"v", None, I(b"tags"), [tag(b"i", [buf(I(b"v"))], inline=True)]),
+    ],
 }
 TNAMES = sorted(TEMPLATES)
+OWN_TNAMES = [t for t in TNAMES if t.startswith("own/")]
 SER_TNAMES = [t for t in TNAMES if t.startswith("ser/")]
 CTX_TNAMES = [t for t in TNAMES if t.startswith("ctx/")]
 RARE_TNAMES = [t for t in TNAMES if t.startswith(("opt/", "str/"))]
@@ -395,6 +435,8 @@ def gen_data(rng, t):
         return {b"rec": rec, b"list": lst, b"want": rng.choice([b"x", b"y", b"q"])}
     if t in SER_TNAMES:
         return gen_ser(rng, t, rng.randint(1, 4), 1)
+    if t in OWN_TNAMES:     # (outside the 'shared' storms: mostly plain Go values, sometimes converted objects)
+        return gen_own(rng, t, SharedPool(rng, "x%d." % rng.randrange(1 << 30), share=0.3))
     return {b"x": 1}   # a template that is not loaded: not_found
 
 
@@ -496,8 +538,121 @@ def gen_sof(rng, fam):
     return Sof(f, rng.choice(PADS), rng.randint(0, len(f)), fam, rng.random() < 0.2)
 
 
+# ------------------------------------------------------------------ objects of the engine's model shared between renders
+class Shared:
+    """ONE result of pugjs.Convert(val), held by the caller under `sid` and put into the data of every render
+    of the case that names it (harness/c08data.go tag "shared")"""
+    def __init__(self, sid, val):
+        self.sid, self.val = sid, val
+
+
+class Ptr:
+    """a pointer to the value"""
+    def __init__(self, val):
+        self.val = val
+
+
+class Objs:
+    """[]pugjs.Object"""
+    def __init__(self, items):
+        self.items = items
+
+
+class OMap:
+    """map[string]pugjs.Object"""
+    def __init__(self, items):
+        self.items = items
+
+
+class SharedPool:
+    """the converted objects the caller of one case holds: a few lists, a few objects (some with a list inside),
+    a few records with a list; jobs of the case draw from the same pool, so different templates and different
+    containers lead to the same object.  share = how often a value is one of them rather than a plain Go value
+    of the render's own."""
+    def __init__(self, rng, prefix, share=1.0):
+        self.rng, self.prefix, self.share, self.made = rng, prefix, share, {}
+
+    def _get(self, kind, mk):
+        rng = self.rng
+        v = mk()
+        if rng.random() >= self.share:
+            return v                       # a plain Go value, built afresh for every render
+        sid = "%s%s%d" % (self.prefix, kind, rng.randrange(2))
+        if sid not in self.made:
+            self.made[sid] = Shared(sid, v)
+        return self.made[sid]
+
+    def words(self):
+        rng = self.rng
+        return self._get("L", lambda: [rng.choice(WORDS) for _ in range(rng.randint(0, 4))])
+
+    def obj(self):
+        rng = self.rng
+        def mk():
+            o = {b"by": rng.choice(WORDS), b"k": rng.choice(WORDS)}
+            if rng.random() < 0.5:
+                o[b"n"] = rng.randint(0, 99)
+            if rng.random() < 0.3:
+                o[b"list"] = [rng.choice(WORDS) for _ in range(rng.randint(0, 2))]
+            return o
+        return self._get("M", mk)
+
+    def record(self, k):
+        """a record with a label and a list of its own (a converted map as a whole)"""
+        rng = self.rng
+        return self._get("R", lambda: {b"label": rng.choice(WORDS) + b"-%d" % k,
+                                       b"tags": [rng.choice(WORDS) for _ in range(rng.randint(0, 3))]})
+
+
+HOLDERS = ["map", "sof", "sofptr", "sofptr", "ptrmap", "ptrptr", "omap"]
+
+
+def holder(rng, fields, kinds=HOLDERS):
+    """one record of the page data with the given members (lower-case names), as the Go value an application
+    might use: a map, a struct value, a pointer to a struct, a pointer to a map, a pointer to a pointer to a
+    struct, a map[string]pugjs.Object"""
+    k = rng.choice(kinds)
+    if k == "map":
+        return dict(fields)
+    if k == "ptrmap":
+        return Ptr(dict(fields))
+    if k == "omap":
+        return OMap(dict(fields))
+    sof = Sof([(n[:1].upper() + n[1:], v) for n, v in fields], rng.choice([0, 0, 7, 60]), rng.randint(0, len(fields)),
+              16 + rng.randrange(4), k != "sof")
+    return Ptr(sof) if k == "ptrptr" else sof
+
+
+def gen_own(rng, t, pool):
+    w = lambda: rng.choice(WORDS)
+    if t == "own/page":
+        page = holder(rng, [(b"tags", pool.words()), (b"attrs", pool.obj()), (b"title", w())])
+        return {b"page": page, b"name": w(), b"user": rng.choice(USERS)}
+    if t == "own/list":
+        def it(k):
+            if rng.random() < 0.4:
+                return pool.record(k)       # the whole record is a converted object
+            return holder(rng, [(b"label", w() + b"-%d" % k), (b"tags", pool.words())])
+        items = [it(k) for k in range(rng.randint(1, 5))]
+        if rng.random() < 0.3:
+            items = Objs(items)             # []pugjs.Object instead of []interface{}
+        return {b"items": items, b"user": rng.choice(USERS)}
+    # own/direct: the page data itself is the record
+    extra = holder(rng, [(b"a", pool.words())], ["map", "sofptr", "omap", "ptrmap"])
+    return holder(rng, [(b"tags", pool.words()), (b"conf", pool.obj()), (b"extra", extra), (b"name", w())],
+                  ["map", "map", "sof", "sofptr", "ptrmap", "omap"])
+
+
 def data_go08(v):
     """tmpl.data_go plus the struct tags of harness/c08data.go"""
+    if isinstance(v, Shared):
+        return {"t": "shared", "v": {"id": v.sid, "val": data_go08(v.val)}}
+    if isinstance(v, Ptr):
+        return {"t": "ptr", "v": data_go08(v.val)}
+    if isinstance(v, Objs):
+        return {"t": "objs", "v": [data_go08(x) for x in v.items]}
+    if isinstance(v, OMap):
+        return {"t": "omap", "v": [[hx(k), data_go08(x)] for k, x in v.items.items()]}
     if isinstance(v, Sof):
         return {"t": "sof", "v": {"fields": [[hx(k), data_go08(x)] for k, x in v.fields], "pad": v.pad, "pad_at": v.pad_at,
                                   "fam": v.fam, "ptr": v.ptr}}
@@ -549,6 +704,27 @@ def _depth_go(v):
     return 0
 
 
+def shared_routes(v, path=()):
+    """(id, route) of every caller-shared converted object in a harness data value; the route names the Go
+    containers between the data of the render and the object: map, arr, struct, *struct, ptr, objs, omap"""
+    t = v.get("t")
+    if t == "shared":
+        yield v["v"]["id"], ">".join(path) or "data"
+    elif t in ("arr", "objs"):
+        for x in v["v"]:
+            yield from shared_routes(x, path + (t,))
+    elif t in ("map", "omap"):
+        for _, x in v["v"]:
+            yield from shared_routes(x, path + (t,))
+    elif t == "ptr":
+        yield from shared_routes(v["v"], path + ("ptr",))
+    elif t == "sof":
+        for _, x in v["v"]["fields"]:
+            yield from shared_routes(x, path + ("*struct" if v["v"]["ptr"] else "struct",))
+    elif t == "named" and v["v"].get("inner"):
+        yield from shared_routes(v["v"]["inner"], path + ("*named" if v["v"]["ptr"] else "named",))
+
+
 def flat(ds):
     """the distinct results of one goroutine in one round (older observations: one result, not a list)"""
     return ds if isinstance(ds, list) else [ds]
@@ -572,7 +748,7 @@ class C08(Prop):
     sizes = {"quick": 56, "thorough": 800}
     shard = 8
     design_ref = "DESIGN.md section 6 C08, section 10"
-    rule = ("one case = one production-mode engine with 21 loaded templates (loops, mixins with blocks, variable "
+    rule = ("one case = one production-mode engine with 24 loaded templates (loops, mixins with blocks, variable "
             "mutation, array push/sort, $global, Math/JSON/Object, while/case/attributes, a data-dependent execution "
             "error; three templates ctx/* whose output depends on the CONTEXT of the render through the harness's "
             "context-aware template functions who/cnum/cget/alive/Req.user/Req.plus supplied via Engine.FuncProvider; "
@@ -582,13 +758,31 @@ class C08(Prop):
             "three templates rec/* over STRUCT data; three SERIALISING templates ser/*: the page's data embedded as JSON "
             "four ways (json(), JSON.stringify, printing the object, an object as attribute value), a recursive mixin that "
             "walks a tree as deep as the data is and serialises sub-trees and, from the bottom of the recursion, the whole "
-            "page data, a table of rows with nested objects plus a while loop that only counts), 1-8 distinct jobs (template, data, context: user, number, string "
+            "page data, a table of rows with nested objects plus a while loop that only counts; three WRITING templates own/* that push "
+            "to, sort and assign into the lists and objects they find in their data: members of a record `page`, members of "
+            "the records of a list, members of the page data itself), 1-8 distinct jobs (template, data, context: user, number, string "
             "table, sometimes already cancelled), N in {2..32} goroutines (48-128 in the heavy storms) released by a barrier, each call with its own "
             "freshly built data value and its own context value, 2-6 rounds, harness built with -race. Struct data "
             "(harness/c08data.go): values of reflect.StructOf types with 5-408 fields whose extra field is named after "
             "a process-wide epoch, so every round (in warm and cold cases) the renders meet Go types that did not exist "
             "before, all goroutines of the round sharing the round's types; and values (also behind pointers) of 48 "
-            "instances of a generic named type with methods, the instance shifted by the round. Five shapes: 'heavy' "
+            "instances of a generic named type with methods, the instance shifted by the round. Six shapes: 'shared' (16% of "
+            "the cases, 7-9 of the quick tier's 56; the own/* templates also take part in the mixed and cold storms, there with "
+            "30% shared objects): DATA THAT IS SHARED BETWEEN THE CONCURRENT RENDERS AND ALREADY HOLDS OBJECTS OF THE ENGINE'S "
+            "MODEL - the caller of the case converted a few values once (pugjs.Convert of lists, of maps, of maps with lists "
+            "inside, of whole records: what an application keeps in a cache; harness data tag 'shared': ONE object per id and "
+            "case, handed to every render alone and in the storm) and puts the SAME objects into the data of every render; "
+            "every render still gets its own outer data value, and the shared object sits in it by value (member of a "
+            "map[string]interface{}, element of a slice), as field of a struct value, as field of a struct behind a pointer "
+            "or behind a pointer to a pointer, behind a pointer to a map, in a []pugjs.Object, in a map[string]pugjs.Object, "
+            "or is the page data's own member when the page data is such a record (struct types from reflect.StructOf as "
+            "above); 1-4 jobs draw from one pool of 2 lists, 2 objects and 2 records per case, so the same object is reached "
+            "by different templates through different containers, 2-32 goroutines x 1-4 renders x 2-5 rounds; the writing "
+            "templates push, sort and assign, so a render that does not own what it writes to shows the writes of the others "
+            "(or of the render alone before the storm) in its output, and the renders alone AFTER the storm - given the same "
+            "shared objects - show whether the caller's objects still are what they were; coverage.distribution."
+            "shared_objects reports the routes (container kinds between the data and the object) by renders, the objects "
+            "reached by two or more jobs and the most goroutines on one object. The other five shapes: 'heavy' "
             "(6-7 cases of the quick tier's 56, 1 in 50 of the thorough tier; one corpus witness): MANY renders in flight x "
             "MUCH work per render - 48, 64, 96 or 128 goroutines, rate limit off or far above the default (64, 256), 2-5 "
             "renders each in one round, every render with its own value of deep or large but ordinary data (maps and lists: "
@@ -643,6 +837,14 @@ class C08(Prop):
         "Go scheduler: the interleavings that occur are whatever the runtime produces on this machine, steered by the "
         "barrier, the stagger plans and the repetitions; the schedule under which the model runs is drawn by the "
         "generator (the theorems hold for every schedule)",
+        "data shared between renders: that Engine.Render detaches every object of the engine's model found in its data "
+        "(convertData: copy on the way in, through every container kind) is observed by the 'shared' storms on the routes "
+        "listed in coverage.distribution.shared_objects (maps, slices, struct values, pointers to structs / maps / "
+        "pointers, []pugjs.Object, map[string]pugjs.Object, up to 3 containers deep), by output comparison and the race "
+        "detector; Models/SchedOwn.v states the discipline (copy first, then write to the copies) and what follows from it for "
+        "every number of renders and every schedule, but that convertWith follows it is not proved, and routes the generator does not build (values returned by the "
+        "application's methods and template functions, channels, embedded structs, unexported fields) are not explored; "
+        "the harness's store of shared objects (one pugjs.Convert per id and case under a mutex) is trusted test code",
         "state that ADDS UP over concurrent renders (a process-wide counter or budget of nesting depth, recursion depth, "
         "iterations, bytes, in-flight calls): that the Go code keeps every such count per render is observed by the heavy "
         "storms up to the sizes they reach (48-128 renders in flight, data 5-16 objects deep, goroutines x depth of the "
@@ -664,6 +866,11 @@ class C08(Prop):
         "semaphore and ctx.Done() is a scheduler coin toss, which is not what C08 compares)",
         "the heavy storms run with the rate limit off or at 64/256: with the default limit of 8 at most 8 renders are "
         "inside the engine at once, and sums over renders in flight stay 16 times smaller",
+        "shared page data: the caller shares only objects of the engine's model (results of pugjs.Convert); plain Go maps "
+        "and slices shared between concurrent renders are never written by the engine (it converts them into objects of "
+        "its own per render) and are not generated; the shared values are lists, maps and records of strings and numbers "
+        "converted eagerly (a converted STRUCT, whose members are converted lazily on first access, is only shared in "
+        "the per-render containers, not between renders)",
         "first use: what is cold in a cold case is the storm's PROCESS (package-level state of pugjs and of the "
         "libraries below it, Go types, the engine's templates); the operating system's caches are not",
     ]
@@ -673,6 +880,13 @@ class C08(Prop):
         "harness's cases, and no statement about the Go source of findFunction, Map.convert or Map.Member is proved",
         "Part 2d's strings.Title / lowerFirst / upperFirst are modelled on ASCII only, and the shared-caser variant "
         "has one point of interference per lookup where the real helper would have two",
+        "shared page data: Models/SchedOwn.v (Part 2e) models convertData as copying every object the data refers to "
+        "before the template runs (theorems C08_shared_objects_detached_reads_only, C08_renders_see_only_their_own_"
+        "writes; aliasing variant refuted), with objects that are flat lists of numbers and push / print as the only "
+        "template operations; the judge does not run that machine (ostep) on the harness's cases - the correspondence "
+        "for the shared-object storms is by output comparison (every concurrent result = the render alone, the renders "
+        "alone after the storm = before it, on the same shared objects) and the race detector; no statement about the "
+        "Go source of convertWith / Object.copy (that the detach flag reaches every route, that copy is deep) is proved",
         "no machine in Models/Sched.v has a counter that several renders add to (a depth / iteration / byte budget kept "
         "process-wide instead of per render): such a step function violates view_preserved, so the interleave theorems "
         "do not apply to it, but the refutation (a guard that trips only under overlap) is not written down as a "
@@ -718,7 +932,7 @@ class C08(Prop):
                 reps = 0       # set below from the number of goroutines
                 keep = 2
                 cold = rng.random() < 0.15
-            elif kind < 0.32:
+            elif kind < 0.29:
                 # CONTEXT STORM: overlapping renders of one context-dependent template (sometimes two or three)
                 # that differ in their context (and sometimes in their data)
                 shape = "ctx"
@@ -729,7 +943,7 @@ class C08(Prop):
                     t = tpls[k % len(tpls)]
                     jobs.append(job(t, k, base[t] if rng.random() < 0.5 else None))   # same data, other context
                 cold = rng.random() < 0.15
-            elif kind < 0.52:
+            elif kind < 0.45:
                 # MIXED STORM: all templates, context-dependent or not
                 shape = "mixed"
                 njobs = rng.choice([1, 2, 3, 4, 6, 8])
@@ -743,7 +957,23 @@ class C08(Prop):
                         t = rng.choice([x for x in TNAMES if x != "fail"])
                     jobs.append(job(t, k))
                 cold = rng.random() < 0.2
-            elif kind < 0.76:
+            elif kind < 0.61:
+                # SHARED-OBJECT STORM: the caller converted some values once (pugjs.Convert: a cache) and puts the
+                # SAME objects into the data of every render - directly, as members of maps and structs, behind
+                # pointers, in []pugjs.Object and map[string]pugjs.Object - and the templates push to, sort and
+                # assign into them.  1-4 jobs draw from one pool of shared objects, so the same object is reached
+                # through different containers and templates; every render still has its own outer data value
+                shape = "shared"
+                njobs = rng.choice([1, 2, 2, 3, 4])
+                pool = SharedPool(rng, "s", share=rng.choice([1.0, 1.0, 0.7]))
+                jobs = [job(t, k, gen_own(rng, t, pool)) for k, t in
+                        enumerate(rng.choice(OWN_TNAMES) for _ in range(njobs))]
+                if rng.random() < 0.25:     # one page that only reads among them
+                    jobs.append(job(rng.choice(["loop", "mixins", "opt/list", "rec/one"]), njobs))
+                    njobs += 1
+                reps = rng.choice([1, 2, 4])
+                cold = rng.random() < 0.2
+            elif kind < 0.81:
                 # RARE-HELPER STORM: many goroutines x many renders of templates that read members which are not
                 # there (optional members, name folding), use string helpers and number formatting; struct data too
                 shape = "rare"
@@ -771,6 +1001,8 @@ class C08(Prop):
                 ngo = rng.choice([8, 16, 32, 32])
             elif shape == "cold":
                 ngo = rng.choice([4, 8, 8, 16, 32])
+            elif shape == "shared":
+                ngo = rng.choice([2, 4, 8, 8, 16, 32])
             else:
                 ngo = rng.choice([2, 2, 8, 8, 8, 32, 32])
             mode = rng.random()
@@ -781,7 +1013,7 @@ class C08(Prop):
                 if shape == "ctx":                            # at least two different contexts meet
                     calls[0], calls[1] = 0, 1
             # deliberate staggering inside the harness's template functions (0 = none: free-running storm)
-            free = {"ctx": 0.15, "mixed": 0.4, "rare": 0.8, "cold": 0.7, "heavy": 0.7}[shape]
+            free = {"ctx": 0.15, "mixed": 0.4, "rare": 0.8, "cold": 0.7, "heavy": 0.7, "shared": 0.6}[shape]
             stagger = 0 if rng.random() < free else rng.randrange(1, 1 << 40)
             rounds = (rng.randint(3, 6) if shape == "cold" else rng.randint(2, 3) if shape == "rare" else
                       1 if shape == "heavy" else rng.randint(2, 5))
@@ -950,7 +1182,10 @@ class C08(Prop):
              "heavy": {"cases": 0, "concurrent_renders": 0, "goroutines": {}, "most_renders_in_flight": 0,
                        "deepest_serialised_data": 0, "largest_goroutines_x_depth": 0, "largest_output_bytes": 0,
                        "largest_sum_of_outputs_in_flight_bytes": 0, "most_loop_iterations_per_render": 0,
-                       "renders_through_serialising_templates": 0, "distinct_results_dropped": 0}}
+                       "renders_through_serialising_templates": 0, "distinct_results_dropped": 0},
+             "shared_objects": {"cases": 0, "concurrent_renders_holding_one": 0, "renders_of_writing_templates": 0,
+                                "objects": 0, "objects_reached_by_two_or_more_jobs": 0,
+                                "most_goroutines_on_one_object": 0, "routes": {}}}
         for c, o in zip(cases, obss):
             sh = c.get("shape", "corpus")
             d["shapes"][sh] = d["shapes"].get(sh, 0) + 1
@@ -997,6 +1232,23 @@ class C08(Prop):
                 h["most_loop_iterations_per_render"] = max([h["most_loop_iterations_per_render"]] + its)
                 h["renders_through_serialising_templates"] += reps * nr * sum(
                     unhx(c["jobs"][g]["tpl"]).startswith(b"ser/") for g in c["calls"])
+            routes = [list(shared_routes(j["data"])) for j in c["jobs"]]
+            d["shared_objects"]["renders_of_writing_templates"] += reps * nr * sum(
+                unhx(c["jobs"][g]["tpl"]).startswith(b"own/") for g in c["calls"])
+            if any(routes):
+                so = d["shared_objects"]
+                so["cases"] += 1
+                so["concurrent_renders_holding_one"] += reps * nr * sum(bool(routes[g]) for g in c["calls"])
+                users, jobs_of = {}, {}
+                for g in c["calls"]:
+                    for sid, rt in set(routes[g]):
+                        so["routes"][rt] = so["routes"].get(rt, 0) + reps * nr
+                    for sid in set(sid for sid, _ in routes[g]):
+                        users[sid] = users.get(sid, 0) + 1
+                        jobs_of.setdefault(sid, set()).add(g)
+                so["objects"] += len(users)
+                so["objects_reached_by_two_or_more_jobs"] += sum(len(v) > 1 for v in jobs_of.values())
+                so["most_goroutines_on_one_object"] = max([so["most_goroutines_on_one_object"]] + list(users.values()))
             if c.get("cold"):
                 d["cold_cases"] += 1
                 d["cold_concurrent_renders"] += nconc
